@@ -7,6 +7,7 @@ from __future__ import annotations
 import bisect
 import hashlib
 import io
+import weakref
 import random
 import struct
 from functools import lru_cache
@@ -372,6 +373,28 @@ class BudgetExceeded(BaseException):
     """I/O budget of a ProxyFile exceeded (BaseException so the code under test cannot swallow it)."""
 
 
+LIVE_PROXIES: list = []  # weak references to the proxies handed out in the current case
+
+
+def disturb_handles(rng) -> int:
+    """Another user of the same handles (the caller, a second object built on the same file object) moves them:
+    every live proxy's backing handle is left at a random position. -> number of handles moved."""
+    moved = 0
+    for ref in list(LIVE_PROXIES):
+        p = ref()
+        if p is None:
+            LIVE_PROXIES.remove(ref)
+            continue
+        if p._size is None or getattr(p._fh, "closed", False):
+            continue
+        try:
+            p._fh.seek(rng.randrange(0, p._size + 1))
+            moved += 1
+        except Exception:
+            pass
+    return moved
+
+
 class ProxyFile:
     """Wraps a binary handle given to the code under test and records what is done to it."""
 
@@ -392,6 +415,7 @@ class ProxyFile:
         self.closed_by_callee = False
         self.calls: list[tuple] | None = [] if log_calls else None
         self.budget_tripped = False
+        LIVE_PROXIES.append(weakref.ref(self))
         try:
             pos = fh.tell()
             fh.seek(0, 2)
